@@ -201,9 +201,11 @@ func runHistory(c *core.Ctx, name string, wl sx.Workload, keep int, seed int64, 
 func run(c *core.Ctx) error {
 	c.SetRule("one evaluation = one rollback point of a finished history (batches tagged with internal key seq; numSnapshotsToKeep 1..3; safe/unsafe; settling pauses and forced merges between batches): directory copied, scorch.Rollback to the point, bleve.Open, full observation, one more batch, observation; plus one Points record per history. " +
 		"distinct_nontrivial = distinct (history, point seq, recovered content) with a non-empty recovered content")
-	cfgs := []string{"ScorchDisk_mc_disk.cfg", "ScorchDisk_mc_keep2.cfg"}
+	// memmerge: the persister's in-memory merge persists an equivalent snapshot under the
+	// OLD epoch while batches keep arriving (EveryBoltIsAState, RollbackOK with KeepN = 2)
+	cfgs := []string{"ScorchDisk_mc_disk.cfg", "ScorchDisk_mc_keep2.cfg", "ScorchDisk_mc_memmerge.cfg"}
 	if c.Thorough() {
-		cfgs = append(cfgs, "ScorchDisk_mc_keep2_thorough.cfg")
+		cfgs = append(cfgs, "ScorchDisk_mc_keep2_thorough.cfg", "ScorchDisk_mc_memmerge_thorough.cfg")
 	}
 	for _, cfg := range cfgs {
 		if _, ok := c.ModelCheck("ScorchDisk", cfg, core.Workers(8), core.Timeout(25*time.Minute), core.Heap(8000)); !ok {
